@@ -100,7 +100,7 @@ theorem parse_printSchemaT_core (o : SdlPrintT.OptsT) (s : SchemaD) (hs : InPrin
     (hT : ∀ t ∈ s.types, TopDesc o t.desc ∧ MembersPart s o t) :
     parseSdlTextT (SdlPrintT.printSchemaT o s) = docToAst (schemaToDoc s) := by
   simp only [printTextWF, Bool.and_eq_true, List.all_eq_true, Bool.or_eq_true, Bool.not_eq_true', List.isEmpty_eq_false_iff] at hwf
-  obtain ⟨⟨⟨⟨⟨⟨⟨⟨_, hind0⟩, htypes⟩, hdirs⟩, hq⟩, hm⟩, hsub⟩, hnonempty⟩, hroots⟩ := hwf
+  obtain ⟨⟨⟨⟨⟨⟨⟨⟨⟨_, hind0⟩, htypes⟩, hdirs⟩, hq⟩, hm⟩, hsub⟩, hnonempty⟩, hroots⟩, _⟩ := hwf
   have hind : Blank o.indent := by
     intro c hc; have := hind0 c hc; simpa using this
   have hrootsne : needsSchemaBlock s = true → rootOps s ≠ [] := by
@@ -172,7 +172,7 @@ theorem parse_printSchemaT_core (o : SdlPrintT.OptsT) (s : SchemaD) (hs : InPrin
 
 theorem blank_of_wf (o : SdlPrintT.OptsT) (s : SchemaD) (hwf : printTextWF o s = true) : Blank o.indent := by
   simp only [printTextWF, Bool.and_eq_true, List.all_eq_true] at hwf
-  intro c hc; have := hwf.1.1.1.1.1.1.1.2 c hc; simpa using this
+  intro c hc; have := hwf.1.1.1.1.1.1.1.1.2 c hc; simpa using this
 
 /-- LAYER (i) of `print_schema_text_parses` -/
 theorem parse_printSchemaT_layer1 (o : SdlPrintT.OptsT) (s : SchemaD) (hs : InPrintOrder s)
@@ -183,12 +183,12 @@ theorem parse_printSchemaT_layer1 (o : SdlPrintT.OptsT) (s : SchemaD) (hs : InPr
   simp only [printTextWF, Bool.and_eq_true, List.all_eq_true] at hwf0
   apply parse_printSchemaT_core o s hs hwf
   · intro d hd
-    have hok := hwf0.1.1.1.1.1.2 d hd
+    have hok := hwf0.1.1.1.1.1.1.2 d hd
     simp only [directiveOKT, Bool.and_eq_true, List.all_eq_true] at hok
     have hpd := hp.2 d hd
     exact ⟨descPart_noDoc o d.desc 0 true hpd.1, argsPart_plain s o _ d.args 0 hok.1.1.2 hpd.2⟩
   · intro t ht
     have hpt := hp.1 t ht
-    exact ⟨descPart_noDoc o t.desc 0 true hpt.1, membersPart_plain s o hind t (hwf0.1.1.1.1.1.1.2 t ht) hpt.2⟩
+    exact ⟨descPart_noDoc o t.desc 0 true hpt.1, membersPart_plain s o hind t (hwf0.1.1.1.1.1.1.1.2 t ht) hpt.2⟩
 
 end PyGql.SdlText
